@@ -60,7 +60,14 @@ func (conn *Conn) close() {
 	verifPoint("close_destroy", conn, nil)
 	/* call FidDestroy for all remaining fids */
 	if op, ok := (conn.Srv.ops).(SrvFidOps); ok {
+		/* requests still being served may change the fid table */
+		conn.Lock()
+		fids := make([]*SrvFid, 0, len(conn.fidpool))
 		for _, fid := range conn.fidpool {
+			fids = append(fids, fid)
+		}
+		conn.Unlock()
+		for _, fid := range fids {
 			op.FidDestroy(fid)
 		}
 	}
